@@ -115,6 +115,104 @@ def special(tier):
     return scs
 
 
+# ---- model-driven sessions: random client behaviour, the LTS under an eager scheduler says who is served and who waits
+WHY = {"close": "ByClientClose", "half": "ByClientClose", "abort": "ByClientClose", "garbage": "ByProtocolError", "badarity": "ByProtocolError",
+       "nonutf8": "ByProtocolError", "halfframe": "ByClientClose", "unknown-long": "ByProtocolError"}
+PROBE_REPLY = b"$-1\r\n".hex()
+
+
+def model_sessions(rep, rng, tier):
+    from common import coq_eval, chunks, NCPU
+    n = {"quick": 24, "thorough": 300}[tier]
+    sessions = []
+    for i in range(n):
+        r = rng.fork()
+        mx = r.rng(1, 4)
+        acts = []
+        for _ in range(r.rng(6, 16)):
+            k = r.below(10)
+            if k < 5:
+                acts.append(("open",))
+            elif k < 8:
+                acts.append(("end", r.below(8), r.choice(ENDINGS)))
+            else:
+                acts.append(("drop", r.below(8)))
+        sessions.append((mx, acts))
+
+    def coq_act(a):
+        if a[0] == "open":
+            return "AOpen"
+        if a[0] == "end":
+            return "AEndServed %d%%nat %s" % (a[1], WHY[a[2]])
+        return "ADropPending %d%%nat" % a[1]
+    shards = chunks(sessions, NCPU)
+    terms = ["render_limits [%s]" % "; ".join("(%d%%nat, [%s])" % (mx, "; ".join(coq_act(a) for a in acts)) for mx, acts in sh) for sh in shards]
+    res, logs = coq_eval("C15", "Base.Bytes Sys.Limit Sys.LimitRun Sys.RenderLimit", terms)
+    model = []
+    for sh, r in zip(shards, res):
+        ls = r.split("\n") if (r is not None and sh) else []
+        model.extend(ls if len(ls) == len(sh) else [None] * len(sh))
+    rep.obligation("the limit model evaluates on every generated session", all(m is not None for m in model))
+    for l in logs[:1]:
+        log(l)
+    scs = []
+    for i, ((mx, acts), m) in enumerate(zip(sessions, model)):
+        if m is None:
+            continue
+        states = []
+        for part in m.split(";"):
+            sv, wt = part.split(" ")
+            states.append(([int(x) for x in sv[1:].split(",") if x], [int(x) for x in wt[1:].split(",") if x]))
+        ops, expect = [], []
+        served, waiting, nxt = [], [], 0
+        for a, (sv2, wt2) in zip(acts, states):
+            if a[0] == "open":
+                cid = "c%d" % nxt
+                if nxt in sv2:
+                    ops.append("tryconn %s 3000" % cid)
+                    expect.append((len(ops) - 1, "served", "a connection is not served although the model has a free slot (%d of %d in use)" % (len(served), mx)))
+                else:
+                    ops.append("tryconn %s 300" % cid)
+                    expect.append((len(ops) - 1, "notserved", "a connection is served although all %d slots are in use" % mx))
+                nxt += 1
+            elif a[0] == "end":
+                gone = [x for x in served if x not in sv2]
+                if gone:
+                    ops += end_ops("c%d" % gone[0], a[2])
+            else:
+                gone = [x for x in waiting if x not in wt2 and x not in sv2]
+                if gone:
+                    ops += ["close c%d" % gone[0], "sleep 20"]
+            # connections that the model moves from waiting to served: their probe reply must arrive now
+            for j in [x for x in sv2 if x in waiting]:
+                ops.append("recv c%d 5 3000" % j)
+                expect.append((len(ops) - 1, "ok:5:" + PROBE_REPLY, "a waiting connection is not served after a slot became free (model: served)"))
+            # and the oldest one still waiting must still be waiting
+            if a[0] != "open" and wt2:
+                ops.append("recv c%d 5 250" % wt2[0])
+                expect.append((len(ops) - 1, "timeout:0", "a waiting connection is served although the model has no free slot"))
+            served, waiting = sv2, wt2
+        sc = N.Scenario("m%d" % i, "maxconn=%d" % mx, ops)
+        sc.expect, sc.mx, sc.acts = expect, mx, acts
+        scs.append(sc)
+    died = N.run_scenarios(scs, procs=16)
+    nobs, ndis = 0, 0
+    for sc in scs:
+        if sc.name in died or not sc.out or sc.out[0] != "start ok":
+            rep.failing.append({"what": "server died or did not start (model-driven session)", "ops": sc.ops[:10], "out": (sc.out or [])[:10]})
+            continue
+        for idx, want, why in sc.expect:
+            got = sc.out[idx + 1] if idx + 1 < len(sc.out) else "missing"
+            nobs += 1
+            if not got.startswith(want):
+                ndis += 1
+                rep.failing.append({"what": why, "max_connections": sc.mx, "actions": [str(a) for a in sc.acts], "at_op": sc.ops[idx], "got": got,
+                                    "ops": sc.ops[:idx + 1], "out": sc.out[1:idx + 2], "kind": "model-driven"})
+                break
+    rep.obligation("correspondence limit: served / waiting on the real server = Sys/LimitRun.v on every generated session", ndis == 0)
+    return {"sessions": len(scs), "observations": nobs, "actions": sum(len(a) for _, a in sessions)}
+
+
 def main(tier, seed):
     rep = Report("C15", tier, seed)
     rng = Rng(seed)
@@ -149,10 +247,11 @@ def main(tier, seed):
                                     "ops": sc.ops[:idx + 1], "out": sc.out[1:idx + 2]})
                 break
     rep.obligation("every observation is one the transition system allows (served iff a permit was available)", not rep.failing)
+    cov_model = model_sessions(rep, rng, tier)
     rep.coverage.update({
         "checker_cmd": "make -C coq Props/C15.vo (coqc 8.16.1) ; bin/check C15",
         "trusted_base": TRUSTED,
-        "evaluations": len(scs), "observations": nobs,
+        "evaluations": len(scs), "observations": nobs, "model_driven_sessions": cov_model,
         "distinct_nontrivial": len(set((sc.mx, tuple(o.split()[0] for o in sc.ops)) for sc in scs)),
         "rule": "scenario: fill the server (max_connections 1-3), verify one more connection is NOT served, end a served "
                 "connection in one of six ways (client close, garbage, half-sent frame, wrong arity, non-UTF-8 key, half-close), "
